@@ -78,6 +78,10 @@ def main():
               % (pid, len(drift), json.dumps({k: drift[0][k] for k in ("clause", "hist")})[:400]))
     rdir = os.path.join(OUT, "replay")
     os.makedirs(rdir, exist_ok=True)
+    if not a.replay:
+        for fn in os.listdir(rdir):
+            if fn.startswith(pid + "-"):
+                os.remove(os.path.join(rdir, fn))
     shown = 0
     seen_clause = {}
     for i, f in enumerate(violations):
